@@ -70,7 +70,7 @@ class _Conv:
 
     def __call__(self, x):
         k = round((x - self.off) / self.scale)
-        tol = (self.n + 4) * EPS * max(1.0, abs(x), abs(self.off), abs(self.scale) * (self.n + 4))
+        tol = (self.n + 4) * EPS * max(abs(x), abs(self.off), abs(self.scale) * (self.n + 4))      # relative: rounding of <= n additions
         if abs(x - self.inv(k)) > tol and self.bad is None:
             self.bad = (x, k, self.inv(k), tol)
         return k
@@ -266,7 +266,8 @@ def run(ctx):
     # (d) float variant: lattice k -> k*scale + off
     for t in range(ctx.pick(300, 3000)):
         n = rng.choice([3, 6, 15, 40])
-        scale, off = rng.choice([(0.1, 0.0), (0.1, 1234.5), (0.25, -3.0), (1e-3, 7e3), (152.4, 0.0), (0.5, 1e6)])
+        scale, off = rng.choice([(0.1, 0.0), (0.1, 1234.5), (0.25, -3.0), (1e-3, 7e3), (152.4, 0.0), (0.5, 1e6),
+                                 (1e-17, 0.0), (2.0 ** -60, 0.0), (1e-20, 5e-9), (1e-12, 0.0), (1e-9, 1e-6), (3e15, 0.0)])   # small and large magnitudes
         seq, k = [], rng.randint(-20, 20)
         while len(seq) < n:
             stride = rng.randint(-3, 4)
@@ -303,7 +304,7 @@ def run(ctx):
             m['kind'], l, json.dumps(ev), json.dumps(m)[:300]), dict(meta=m, event=ev, l=l), sig=sig)
     ctx.assumptions += ['indices and frame numbers are valid ones; largest_le only on non-decreasing sequences with a '
                         'stored value <= query', 'record positions strictly increasing, frames >= 1',
-                        'float results: |result - added| <= (n+4)*eps*max(1,|x|,...) (rounding of at most n additions)']
+                        'float results: |result - added| <= (n+4)*eps*max(|x|, |offset|, (n+4)|stride|) (relative: rounding of at most n additions)']
     ctx.explanation = 'design refinement by TLC; every real-object history validated event by event against RleAbs'
 
 
